@@ -31,6 +31,28 @@ CanonOK(cfg, st, e) ==
         LET p == Src(cfg, r.l)
         IN r.tok \in {Tok(cfg, p, g) : g \in NearestSet(st.full[p], r.t)}
 
+(* what arrives through a single time-interpolation adapter (NextTime / PreviousTime / LinearTime) next to the *)
+(* input is determined by the producer's full publication history alone, however far ahead the producer was   *)
+(* driven by other consumers: the first publication at or after t, the last at or before t, the linear        *)
+(* interpolant (compared when it is an integer)                                                               *)
+BufCanonOK(cfg, st, e) ==
+  LET c == e.c IN
+  (~e.fail /\ Len(e.got) = Len(cfg.comps[c].ins)) =>
+  \A ii \in 1..Len(cfg.comps[c].ins) :
+    LET l == <<c, ii>>  ch == Chain(cfg, l)  p == Src(cfg, l) IN
+    (Len(ch) = 1 /\ ch[1].k = "buffer" /\ ch[1].b \in {"next", "prev", "linear"} /\ IsTime(cfg, p) /\ ~IsRelay(cfg, p)
+     /\ cfg.comps[p].u = "m") =>
+       LET S == {st.full[p][x] : x \in 1..Len(st.full[p])}
+           tt == e.ta
+           Up == {g \in S : g >= tt}  Dn == {g \in S : g <= tt}
+       IN (Up # {} /\ Dn # {}) =>
+          LET g2 == SetMin(Up)  g1 == SetMax(Dn)  v1 == Tok(cfg, p, g1)  v2 == Tok(cfg, p, g2) IN
+          CASE ch[1].b = "next" -> e.got[ii] = v2
+            [] ch[1].b = "prev" -> e.got[ii] = v1
+            [] OTHER -> (g1 = g2 /\ e.got[ii] = v1)
+                        \/ (g1 < g2 /\ (((v2 - v1) * (tt - g1)) % (g2 - g1) # 0
+                                        \/ e.got[ii] = v1 + ((v2 - v1) * (tt - g1)) \div (g2 - g1)))
+
 (* C20: a reader of a WeightedSum receives sum(value * weight) of what the *)
 (* merger pulled for the requested time, in the units of the first value  *)
 UFactor(u) == IF u = "km" THEN 1000 ELSE 1
@@ -89,6 +111,7 @@ UpdVerdict(cfg, st, e, u, k) ==
   ELSE IF ~ProviderOK(cfg, ProjLog(e.log), ProjLog(u.log)) THEN Fail("delay-shift", k)
   ELSE IF ProjSet(e.nlog) # ProjSet(u.nlog) THEN Fail("delay-shift-notify", k)
   ELSE IF ~CanonOK(cfg, st, e) THEN Fail("canon", k)
+  ELSE IF ~BufCanonOK(cfg, st, e) THEN Fail("canon-buffered", k)
   ELSE IF ~WSumOK(cfg, e) \/ ~WSumCanonOK(cfg, st, e, u) THEN Fail("weighted-sum", k)
   \* every read of a static input delivers the static source's only publication
   ELSE IF "sins" \in DOMAIN cfg.comps[c] /\ e.sgot # [j \in 1..Len(cfg.comps[c].sins) |-> cfg.tb * cfg.comps[c].sins[j]]
